@@ -600,9 +600,18 @@ def tr_decasteljau(src, tree, parts):
          and is_call(st.body[0].exc, "InvalidRangeArgumentError"), BEZ, st, "parameter guard not recognised")
     reject = fbexpr(st.test, {"t": "t"}, BEZ)
     a = assign1(b[1])
+    def same_value(elt, var):
+        # x, or a value-preserving copy of it: np.array(x[, subok=..]) / np.copy(x) / x.copy() / Vec(x)
+        if T.dotted(elt) == var:
+            return True
+        if isinstance(elt, ast.Call) and T.dotted(elt.func) in ("np.array", "np.copy", "Vec") and len(elt.args) == 1 \
+                and T.dotted(elt.args[0]) == var and all(k.arg in ("subok", "copy") for k in elt.keywords):
+            return True
+        return (isinstance(elt, ast.Call) and isinstance(elt.func, ast.Attribute) and elt.func.attr == "copy"
+                and T.dotted(elt.func.value) == var and not elt.args and not elt.keywords)
     ok = (a and isinstance(a[1], ast.ListComp) and len(a[1].generators) == 1 and T.dotted(a[1].generators[0].iter) == "P"
-          and not a[1].generators[0].ifs and T.dotted(a[1].elt) == T.dotted(a[1].generators[0].target))
-    need(ok, BEZ, b[1], "coeffs = [x for x in P] expected")
+          and not a[1].generators[0].ifs and same_value(a[1].elt, T.dotted(a[1].generators[0].target)))
+    need(ok, BEZ, b[1], "coeffs = [<x or a copy of x> for x in P] expected")
     cf = a[0]
     a = assign1(b[2])
     need(a is not None, BEZ, b[2], "order = ... expected")
